@@ -29,3 +29,10 @@ Proof. destruct clone_is_deep as (_ & -> & _). apply request_options_independent
 (* Request.do restarts RetryAttempt for every entry point (Send-based verbs, Do) *)
 Lemma do_resets : do_resets_attempt = true.
 Proof. reflexivity. Qed.
+
+(* the stop decision and the wait ask r.Context() on every attempt (a context installed after Do
+   started - by a client middleware, by a retry hook - governs them), and every attempt reads the
+   body from a reader of its own (GBStatic in Model/Retry.v: overlapping uploads cannot disturb
+   each other) *)
+Lemma context_and_body_as_modelled : ctx_read_per_attempt = true /\ getbody_fresh_reader = true.
+Proof. split; reflexivity. Qed.
